@@ -501,9 +501,9 @@ func (c *seqCtx) pickChildName(n *node, p []string, mode int) string {
 	x := r.Intn(100)
 	if mode == 0 {
 		switch {
-		case x < 12 && len(rd) > 0:
+		case x < 18 && len(rd) > 0:
 			return c.pick(rd)
-		case x < 24 && len(ch) > 0:
+		case x < 28 && len(ch) > 0:
 			return c.pick(ch)
 		case x < 38:
 			return invalid()
@@ -694,7 +694,7 @@ func (c *seqCtx) pickHandle(s *state, hs []*handle) *handle {
 			stale = append(stale, h)
 		}
 	}
-	if len(stale) > 0 && (c.rng.Chance(1, 5) || len(live) == 0) {
+	if len(stale) > 0 && (c.rng.Chance(1, 3) || len(live) == 0) {
 		return stale[c.rng.Intn(len(stale))]
 	}
 	if len(live) == 0 {
@@ -773,8 +773,9 @@ func (c *seqCtx) doBucket(v *view, h *handle, n *node, name string) {
 	c.checkHandle(v, "Bucket", b, validName(name) && n.sub[name] != nil, append(append([]string(nil), h.path...), name), id)
 }
 
-func (c *seqCtx) doGet(v *view, h *handle, n *node) {
-	key := c.pickKey(v.s, n, h.path, false)
+func (c *seqCtx) doGet(v *view, h *handle, n *node) { c.getKey(v, h, n, c.pickKey(v.s, n, h.path, false)) }
+
+func (c *seqCtx) getKey(v *view, h *handle, n *node, key []byte) {
 	c.emit("%s%d.Get(%s)", v.pfx, h.id, qb(key))
 	c.count("op:Get")
 	got, err := h.b.Get(key)
@@ -1259,6 +1260,22 @@ func (c *seqCtx) opNewBucket(h *handle, n *node) {
 		val2 := mkVal(len(val)+1, val[0]+1)
 		c.putKV(th, n.sub[twin], key, val2, fmt.Sprintf("v(%d,0x%02x)", len(val2), val2[0]))
 		c.count("twin_sibling_scenarios")
+		// half of the time: empty or remove the shorter-named twin at once, the longer-named one must keep its key
+		switch c.rng.Intn(4) {
+		case 0:
+			if !c.failed {
+				c.opClear(nh, n.sub[name])
+			}
+		case 1:
+			if !c.failed {
+				c.deleteBucketNamed(h, n, name)
+			}
+		default:
+			return
+		}
+		if !c.failed && n.sub[twin] != nil {
+			c.getKey(c.wview(), th, n.sub[twin], key)
+		}
 	}
 }
 
@@ -1303,10 +1320,13 @@ func (c *seqCtx) slotFor(path []string) *handle {
 }
 
 func (c *seqCtx) opDeleteBucket(h *handle, n *node) {
-	name := c.pickChildName(n, h.path, 1)
+	c.deleteBucketNamed(h, n, c.pickChildName(n, h.path, 1))
+}
+
+func (c *seqCtx) deleteBucketNamed(h *handle, n *node, name string) {
 	exists := validName(name) && n.sub[name] != nil
 	sp := append(append([]string(nil), h.path...), name)
-	if exists && c.slotFor(sp) == nil && c.rng.Chance(2, 5) {
+	if exists && c.slotFor(sp) == nil && c.rng.Chance(3, 5) {
 		// keep a handle of the bucket about to be deleted
 		c.doBucket(c.wview(), h, n, name)
 		if c.failed {
@@ -1341,7 +1361,7 @@ func (c *seqCtx) opDeleteBucket(h *handle, n *node) {
 			// re-create at once: the new bucket must be empty, whatever the deleted one contained
 			c.count("delete_then_recreate_scenarios")
 			c.newBucketNamed(h, n, name)
-		} else if st := c.slotFor(sp); st != nil && c.rng.Chance(3, 5) {
+		} else if st := c.slotFor(sp); st != nil && c.rng.Chance(4, 5) {
 			c.forceStale = st
 		}
 	}
